@@ -104,7 +104,7 @@ func AddFakeWorld(src *choice.Src, c *Cfg, dotPkg bool) {
 	aliases := []KV{{"a", "example.com/a"}, {"ab", "example.com/ab/v2"}, {"abc", "example.com/x/abc"},
 		{"pkg", "my/pkg"}, {"pkg.sub", "other/sub"}, {"http", "net/http"}, {"h", "example.com/h"}, {"fxx", "example.com/fxx"},
 		// targets that themselves begin with an alias (their own, or another one: expansion must not be repeated)
-		{"log", "log/slog"}, {"os", "os/exec"}, {"p", "q/x"}, {"q", "p/y"}, {"fmt", "fmt/v2"}}
+		{"log", "log/slog"}, {"os", "os/exec"}, {"p", "q/x"}, {"q", "p/y"}, {"fmt", "fmt/v2"}, {"ver", "v2"}, {"x", "v3"}}
 	n := src.Range("fake.naliases", 1, 5)
 	seen := map[string]bool{}
 	for _, kv := range c.Meta.Imports {
@@ -117,7 +117,7 @@ func AddFakeWorld(src *choice.Src, c *Cfg, dotPkg bool) {
 			c.Meta.Imports = append(c.Meta.Imports, kv)
 		}
 	}
-	refs := []string{"abc", "ab", "a", "pkg", "pkg.sub", "http", "h", "fxx", `"example.com/quoted/p"`, "unaliased/long/path", "abcd", "fx", "log", "os", "p", "q", "p/sub", "log/more"}
+	refs := []string{"abc", "ab", "a", "pkg", "pkg.sub", "http", "h", "fxx", `"example.com/quoted/p"`, "unaliased/long/path", "abcd", "fx", "log", "os", "p", "q", "p/sub", "log/more", "v2", "v3", `"v12"`, "x/v2", "ver"}
 	used := map[string]bool{}
 	for _, s := range c.Services {
 		used[s.Name] = true
